@@ -1,10 +1,10 @@
-(** Translator tie, group Logic: the limb-wise bitwise operators Uint::bitand / bitor / bitxor / not of src/uint/bit_and.rs,
-    bit_or.rs, bit_xor.rs, bit_not.rs (and the Limb methods they call) as regenerated from /repo's CURRENT source
+(** Translator tie, group Logic: the limb-wise bitwise operators Uint::bitand / bitor / not of src/uint/bit_and.rs,
+    bit_or.rs, bit_not.rs (bitxor is in the Int group, Src/GenIntP.v) (and the Limb methods they call) as regenerated from /repo's CURRENT source
     (Src/GenLogic.v) equal the models limbs_and / limbs_or / limbs_xor / limbs_not of Model/Bits.v for every limb count that
     is a usize; with the model theorems of Proofs/BitsP.v the represented integers are Z.land / Z.lor / Z.lxor / the
     complement. *)
 From CB Require Import Model.SrcPrelude Model.Word Model.Limbs Model.Bits.
-From CB Require Import Src.GenPrim Src.GenMod Src.GenLogic Src.GenUint Src.GenWidthP Src.GenPrimP Src.GenLoopP Src.GenUintP.
+From CB Require Import Src.GenPrim Src.GenMod Src.GenShift Src.GenLogic Src.GenUint Src.GenWidthP Src.GenPrimP Src.GenLoopP Src.GenUintP.
 From Coq Require Import Lia List ZArith.
 Import ListNotations.
 Open Scope Z_scope.
@@ -26,14 +26,6 @@ Proof.
   subst n. rewrite (loop_map2 g_limb_bitor a b) by congruence. reflexivity.
 Qed.
 
-Lemma g_uint_bitxor_eq n a b : length a = n -> length b = n -> usz n -> g_uint_bitxor n a b = limbs_xor a b.
-Proof.
-  intros Ha Hb Hn. unfold g_uint_bitxor, limbs_xor.
-  rewrite (iter_idx _ (fun j (out : list Z) => upd_ out j (g_limb_bitxor (nth j a 0) (nth j b 0))))
-    by (first [exact Hn | intros i s Hi; reflexivity]).
-  subst n. rewrite (loop_map2 g_limb_bitxor a b) by congruence. reflexivity.
-Qed.
-
 Lemma g_limb_not_wnot x : g_limb_not x = wnot x.
 Proof. unfold g_limb_not, not_, wnot, MAXW, B. reflexivity. Qed.
 
@@ -53,9 +45,6 @@ Proof. intros Wa Wb Ha Hb Hn. rewrite g_uint_bitand_eq by assumption. subst n. a
 Lemma g_uint_bitor_exact n a b : wf a -> wf b -> length a = n -> length b = n -> usz n ->
   wf (g_uint_bitor n a b) /\ length (g_uint_bitor n a b) = n /\ eval (g_uint_bitor n a b) = Z.lor (eval a) (eval b).
 Proof. intros Wa Wb Ha Hb Hn. rewrite g_uint_bitor_eq by assumption. subst n. apply limbs_or_correct; [assumption|assumption|symmetry; assumption]. Qed.
-Lemma g_uint_bitxor_exact n a b : wf a -> wf b -> length a = n -> length b = n -> usz n ->
-  wf (g_uint_bitxor n a b) /\ length (g_uint_bitxor n a b) = n /\ eval (g_uint_bitxor n a b) = Z.lxor (eval a) (eval b).
-Proof. intros Wa Wb Ha Hb Hn. rewrite g_uint_bitxor_eq by assumption. subst n. apply limbs_xor_correct; [assumption|assumption|symmetry; assumption]. Qed.
 Lemma g_uint_not_exact n a : wf a -> length a = n -> usz n ->
   wf (g_uint_not n a) /\ length (g_uint_not n a) = n /\ eval (g_uint_not n a) = Bn n - 1 - eval a.
 Proof. intros Wa Ha Hn. rewrite g_uint_not_eq by assumption. subst n. apply limbs_not_correct; assumption. Qed.
